@@ -53,6 +53,8 @@ type Task struct {
 	mu    any
 	lkind string
 
+	weakRank  int
+
 	blockedAt string
 	Panic     any
 	PanicInfo string
@@ -88,6 +90,9 @@ type Config struct {
 	TickOneIn int           // with runnable tasks: let time pass first with probability 1/TickOneIn (0: never)
 	Sticky    int           // extra weight (in candidates) for continuing the task that ran last
 	KeepLog   bool          // keep the full event list (else only hash and counters)
+	// TickBeforeWaive n > 1: when only weak waits could be waived, let time pass
+	// first with probability (n-1)/n, for up to an hour of simulated time.
+	TickBeforeWaive int
 }
 
 type lockState struct {
@@ -406,8 +411,13 @@ func (s *Sim) WaitFor(site string, cond func() bool) {
 
 // WaitWeak parks the calling task until cond holds or until no other task
 // can run (start delays are preferences, never a reason for a deadlock).
-func (s *Sim) WaitWeak(site string, cond func() bool) {
+func (s *Sim) WaitWeak(site string, cond func() bool) { s.WaitWeakRank(site, 0, cond) }
+
+// WaitWeakRank is WaitWeak with a rank: when nothing else can run, only the
+// waiting tasks of the lowest rank are released.
+func (s *Sim) WaitWeakRank(site string, rank int, cond func() bool) {
 	if t := s.self(); t != nil && !s.aborted.Load() {
+		t.weakRank = rank
 		s.park(t, site, parkWeak, cond, nil, "")
 	}
 }
@@ -565,8 +575,24 @@ func (s *Sim) Run() Result {
 			}
 			cands = append(cands, t)
 		}
-		if len(cands) == 0 {
-			cands = weak
+		// only preferences could be waived: sometimes let time pass first (a pending
+		// timer, e.g. a reconnect, may fire before the waiting tasks move on)
+		waive := len(cands) == 0 && len(weak) > 0
+		if waive && s.cfg.TickBeforeWaive > 1 && idleSlice < time.Hour && s.ch.Choose(s.cfg.TickBeforeWaive, "tick before waiving?") != 0 {
+			waive = false
+		}
+		if waive {
+			lowest := weak[0].weakRank
+			for _, t := range weak {
+				if t.weakRank < lowest {
+					lowest = t.weakRank
+				}
+			}
+			for _, t := range weak {
+				if t.weakRank == lowest {
+					cands = append(cands, t)
+				}
+			}
 		}
 		if !pending {
 			s.mu.Unlock()
